@@ -778,12 +778,37 @@ theorem T_C18_tie_corner_recipe (q : Quads) :
 theorem T_C18_tie_swap (out : List V3) : swapLR out = CBV.Gen.c18SwapIdx.map (fun i => out.getD i V3.zero) := rfl
 
 theorem T_C18_tie_hand (out : List V3) :
-    CBV.Gen.c18HandSides = [("side_x", 1, 0), ("side_y", 3, 0), ("side_z", 4, 0)] ∧
+    CBV.Gen.c18HandSides = [(1, 0), (3, 0), (4, 0)] ∧
     fixHand out =
-      (let side (k : Nat) := out.getD (CBV.Gen.c18HandSides.getD k ("", 0, 0)).2.1 V3.zero -
-          out.getD (CBV.Gen.c18HandSides.getD k ("", 0, 0)).2.2 V3.zero
+      (let side (k : Nat) := out.getD (CBV.Gen.c18HandSides.getD k (0, 0)).1 V3.zero -
+          out.getD (CBV.Gen.c18HandSides.getD k (0, 0)).2 V3.zero
        if det3 (side 0) (side 1) (side 2) < 0 then CBV.Gen.c18SwapIdx.map (fun i => out.getD i V3.zero) else out) :=
   ⟨by decide, rfl⟩
+
+/-- `get_common_point` raises `DegenerateGeometryError` exactly when the number of common points of the three quads is
+    not the source's constant (repair 70219c0: also when there is none — no bare `IndexError`) -/
+theorem T_C18_tie_common_point_guard (q q1 q2 : List V3) :
+    CBV.Gen.c18CommonPointGuard.1 = "NotEq" ∧
+    ((commonPoints (commonPoints q q1) q2).length ≠ CBV.Gen.c18CommonPointGuard.2 →
+      commonPoint q q1 q2 = .error .degenerate) ∧
+    (∀ e, commonPoint q q1 q2 = .error e → e = .degenerate) := by
+  have hn : CBV.Gen.c18CommonPointGuard.2 = 1 := rfl
+  refine ⟨by decide, ?_, ?_⟩
+  · intro h
+    rw [hn] at h
+    unfold commonPoint
+    simp only [h, ne_eq, not_false_eq_true, if_true]
+  · intro e he
+    unfold commonPoint at he
+    simp only at he
+    split at he
+    · cases he; rfl
+    · rename_i hlen
+      split at he
+      · rename_i heq
+        rw [heq] at hlen
+        exact absurd hlen (by simp)
+      · cases he
 
 /-- `_make_triangles` rejects exactly the hulls whose number of simplices is not the source's constant -/
 theorem T_C18_tie_hull_count (pts : List V3) (sim : List (Nat × Nat × Nat)) :
@@ -820,30 +845,29 @@ theorem T_C18_tie_shell_slice (s : Sketch) :
     `> 2`, `!= 2`, `> 1`, `!= 1`, `< 0.5`, `< 0`, `[-2:]`, `[1:3]`, front/back/top/bottom/left/right with their signs) -/
 theorem T_C18_tie_guards :
     CBV.Gen.c18Compares =
-      [("finder.FinderBase._find_by_position", "radius is None"),
-       ("finder.FinderBase._find_by_position", "f.norm(vertex.position - position) < radius"),
-       ("functions.is_point_on_plane", "point_to_plane_distance(origin, normal, point) < constants.TOL"),
-       ("functions.point_to_plane_distance", "norm(origin - point) < constants.TOL"),
-       ("viewpoint.Quadrangle.__init__", "len(triangles) > 2"),
-       ("viewpoint.Quadrangle.__init__", "np.dot(triangles[0].normal, triangles[1].normal) < 0.5"),
-       ("viewpoint.Quadrangle.__init__", "len(common_points) != 2"),
-       ("viewpoint.Quadrangle.__init__", "len(unique_points) != 2"),
-       ("viewpoint.Quadrangle.get_common_point", "len(common_2) > 1"),
-       ("viewpoint.Quadrangle.get_common_points", "f.norm(point_1 - point_2) < constants.TOL"),
-       ("viewpoint.Quadrangle.get_unique_points", "f.norm(point - common_point) < constants.TOL"),
-       ("viewpoint.Triangle.orient", "np.dot(self.center - hull_center, self.normal) < 0"),
-       ("viewpoint.ViewpointReorienter._make_triangles", "len(hull.simplices) != 12"),
-       ("viewpoint.ViewpointReorienter.reorient",
-        "sum((1 for point in sorted_points if f.norm(point - original) < constants.TOL)) != 1"),
-       ("viewpoint.ViewpointReorienter.reorient", "f.norm(point - original) < constants.TOL"),
-       ("viewpoint.ViewpointReorienter.reorient", "np.dot(np.cross(side_x, side_y), side_z) < 0")] ∧
+      [("finder.FinderBase._find_by_position", "v1 is None"),
+       ("finder.FinderBase._find_by_position", "f.norm(v3.position - v0) < v1"),
+       ("functions.is_point_on_plane", "point_to_plane_distance(v0, v1, v2) < constants.TOL"),
+       ("functions.point_to_plane_distance", "norm(v0 - v2) < constants.TOL"),
+       ("viewpoint.Quadrangle.__init__", "len(v0) > 2"),
+       ("viewpoint.Quadrangle.__init__", "np.dot(v0[0].normal, v0[1].normal) < 0.5"),
+       ("viewpoint.Quadrangle.__init__", "len(v1) != 2"),
+       ("viewpoint.Quadrangle.__init__", "len(v2) != 2"),
+       ("viewpoint.Quadrangle.get_common_point", "len(v3) != 1"),
+       ("viewpoint.Quadrangle.get_common_points", "f.norm(v3 - v4) < constants.TOL"),
+       ("viewpoint.Quadrangle.get_unique_points", "f.norm(v4 - v6) < constants.TOL"),
+       ("viewpoint.Triangle.orient", "np.dot(self.center - v0, self.normal) < 0"),
+       ("viewpoint.ViewpointReorienter._make_triangles", "len(v1.simplices) != 12"),
+       ("viewpoint.ViewpointReorienter.reorient", "sum((1 for v10 in v8 if f.norm(v10 - v9) < constants.TOL)) != 1"),
+       ("viewpoint.ViewpointReorienter.reorient", "f.norm(v10 - v9) < constants.TOL"),
+       ("viewpoint.ViewpointReorienter.reorient", "np.dot(np.cross(v11, v12), v13) < 0")] ∧
     CBV.Gen.c18Slices =
-      [("shape.RoundSolidFinder.find_shell", "face.points[1:3]"),
-       ("viewpoint.ViewpointReorienter._get_aligned", "sorted(triangles, key=lambda t: np.dot(t.normal, vector))[-2:]")] ∧
-    CBV.Gen.c18AlignedSlice = (-2, true) ∧ CBV.Gen.c18AlignedKey = "np.dot(t.normal, vector)" ∧
+      [("shape.RoundSolidFinder.find_shell", "v2.points[1:3]"),
+       ("viewpoint.ViewpointReorienter._get_aligned", "sorted(v0, key=lambda v2: np.dot(v2.normal, v1))[-2:]")] ∧
+    CBV.Gen.c18AlignedSlice = (-2, true) ∧ CBV.Gen.c18AlignedKey = "np.dot(v2.normal, v1)" ∧
     CBV.Gen.c18DefaultRadius = ["constants.TOL"] ∧
-    CBV.Gen.c18NormalsDict = [("front", "v_observer"), ("back", "-v_observer"), ("top", "v_ceiling"),
-      ("bottom", "-v_ceiling"), ("left", "v_left"), ("right", "-v_left")] ∧
+    CBV.Gen.c18NormalsDict = [("front", "v1"), ("back", "-v1"), ("top", "v2"),
+      ("bottom", "-v2"), ("left", "v4"), ("right", "-v4")] ∧
     CBV.Gen.c18NormalsDict.map (·.1) = (Dirs.all ⟨V3.zero, V3.zero, V3.zero⟩).map (·.1) := by
   decide +kernel
 
